@@ -221,6 +221,9 @@ func genCase(r *core.Rand, conc bool) []string {
 }
 
 func (P) Gen(r *core.Rand, tier string, emit func([]string)) {
+	// core.NewRand(seed) starts at seed*γ and steps by γ, so the streams of consecutive seeds are one
+	// draw apart and re-synchronise; restart from a mixed value to make seeds independent.
+	r = core.NewRand(r.U64())
 	nSeq, nConc, nURL := 450, 60, 6
 	if tier == "thorough" {
 		nSeq, nConc, nURL = 12000, 1500, 100
